@@ -27,3 +27,9 @@ func (chain *Blockchain) VerifRepo() *database.Repo { return chain.repo }
 func VerifCheckIfProposer(addr [20]byte, appState *appstate.AppState) bool {
 	return checkIfProposer(addr, appState)
 }
+
+// VerifFilterTxs runs the block builder's transaction filter on an explicit check state.
+func (chain *Blockchain) VerifFilterTxs(appState *appstate.AppState, txs []*types.Transaction, header *types.ProposedHeader) []*types.Transaction {
+	res, _, _, _, _ := chain.filterTxs(appState, txs, header)
+	return res
+}
